@@ -89,7 +89,7 @@ static twin::Bytes make_stream(const Cfg & c) {
         twin::Bytes o;
         if (c.sizes[i] <= -1000) {
             uint32_t sz = (uint32_t)(-c.sizes[i] - 1000); o = twin::unknown_object(200 + (uint32_t)i % 50, sz, 0xEE);
-            if (sz >= 16 + 48 + 4) { twin::Bytes fake = twin::can_message(999999); memcpy(&o[16 + (i % 3) * 4], fake.data(), fake.size()); }   // a reader that resumes inside the body would deliver this
+            if (sz >= 16 + 8 + 48) { twin::Bytes fake = twin::can_message(999999); memcpy(&o[16 + (i % 3) * 4], fake.data(), fake.size()); }   // a reader that resumes inside the body would deliver this
         }
         else if (c.sizes[i] == -2) { LinMessage2 * m = make_lin(1000 + (uint32_t)i); MemFile mf; m->write(mf); delete m; o = mf.buf; }   // encoded by the codec (C01-C03 cover it), wrapped independently
         else o = c.sizes[i] < 0 ? twin::can_message(1000 + i) : twin::app_text(1000 + i, (size_t)c.sizes[i]);
@@ -183,7 +183,6 @@ static RunOut session(const Cfg & c, const std::string & path, bool controlled, 
     return out;
 }
 
-static int native_threads() { int n = 0; DIR * d = opendir("/proc/self/task"); if (!d) return -1; while (readdir(d)) n++; closedir(d); return n - 2; }
 
 static long g_sessions = 0, g_read = 0, g_write = 0, g_early = 0, g_maxsteps = 0; static uint64_t g_steps = 0; static std::set<uint64_t> * g_sigs = nullptr; static std::map<int, long> * g_kinds = nullptr; static std::string g_sample;
 static void emit_stats() {
@@ -206,7 +205,7 @@ int main(int argc, char ** argv) {
     long & sessions = g_sessions; long & maxsteps = g_maxsteps; long & read_sessions = g_read; long & write_sessions = g_write; long & early = g_early; uint64_t & totsteps = g_steps;
     std::set<uint64_t> sigs; std::map<int, long> kinds; std::string & sample = g_sample; g_sigs = &sigs; g_kinds = &kinds;
     long cur_cfg = -1; Cfg c; twin::Bytes ref; bool ref_ok = false;
-    int base_threads = native_threads();
+    int base_threads = hc::native_threads();
     for (long idx = from; idx < to; idx++) {
         hc::begin_case(std::to_string(idx));
         long ci = idx / S, si = idx % S;
@@ -228,7 +227,7 @@ int main(int argc, char ** argv) {
                     twin::Bytes E; for (size_t i = 0; i < c.sizes.size(); i++) { ObjectHeaderBase * o = make_object(c, i); MemFile mf; o->write(mf); E.insert(E.end(), mf.buf.begin(), mf.buf.end()); delete o; }
                     if (E != stream) hc::viol("C07:payload!=concatenated-encodings", c.str()); else ref_ok = true;
                 }
-                if (native_threads() != base_threads) hc::viol("C06:thread-left-behind:native:kind" + std::to_string(c.kind), c.str());
+                if (!hc::threads_back_to(base_threads)) hc::viol("C06:thread-left-behind:native:kind" + std::to_string(c.kind), c.str());
             }
         }
         int strategy, sparam = 0, spurious = 0;
